@@ -217,7 +217,7 @@ func mwExtras(repo string, files map[string]*ast.File) (map[string][]matched, []
 
 // mwNip11 reads BuildMiddlewareFromNIP11:
 //
-//	{ if G { return <identity> } }*            outer guards
+//	{ if G { return <identity> } | x := nip11.Limitation }*   outer guards, alias
 //	return func(h Handler) Handler {
 //	    { x := nip11.Limitation }?             alias
 //	    { if G { return h } }*                 inner guards (before the first chain entry)
@@ -281,6 +281,11 @@ func mwNip11(repo string, files map[string]*ast.File) []matched {
 			}
 			outer = append(outer, guard(s.Cond))
 			outerGo = append(outerGo, pr(s.Cond))
+		case *ast.AssignStmt: // alias of the limitation block: x := nip11.Limitation
+			if s.Tok != token.DEFINE || len(s.Lhs) != 1 || len(s.Rhs) != 1 || !lim[pr(s.Rhs[0])] {
+				failf("unsupported outer statement %q", pr(s))
+			}
+			lim[pr(s.Lhs[0])] = true
 		case *ast.ReturnStmt:
 			if i != len(fd.Body.List)-1 || len(s.Results) != 1 {
 				failf("unsupported return %q", pr(s))
